@@ -46,7 +46,7 @@ Piece(e, k) ==
 DropAt(s, i) == SubSeq(s, 1, i - 1) \o SubSeq(s, i + 1, Len(s))
 
 Damage(es) ==
-  LET kind == RandomElement(1..(8 + Z))
+  LET kind == RandomElement(1..(10 + Z))
       i == RandomElement(1..(Len(es) + Z))
       other == RandomElement(1..(NBlocks + Z))
   IN CASE kind = 1 -> [es EXCEPT ![i].st = -1]                               \* junk stated hash
@@ -58,6 +58,7 @@ Damage(es) ==
                              THEN LET j == RandomElement(1..(Len(es) - 1 + Z))
                                   IN [es EXCEPT ![j].st = -1, ![j + 1].rl = 1]
                              ELSE [es EXCEPT ![i].st = -1]
+       [] kind \in {9, 10} -> [es EXCEPT ![i].rl = 2]                        \* a header with the all-zero parent hash (seed C32e)
        [] OTHER -> <<>>                                                      \* empty response
 
 RandResp ==
